@@ -265,5 +265,12 @@ func (m *Manager) createSignedDataToSubmit(ctx context.Context) ([]*types.Signed
 		})
 	}
 
+	// Every pending block is empty: there is no data blob to submit for them (empty data counts as
+	// DA-included), so nothing is waiting for the DA layer and the watermark moves past them. Not while a
+	// non-empty block is still pending: the watermark never passes data the DA layer has not accepted.
+	if len(signedDataToSubmit) == 0 && len(dataList) > 0 {
+		m.pendingData.setLastSubmittedDataHeight(ctx, dataList[len(dataList)-1].Height())
+	}
+
 	return signedDataToSubmit, nil
 }
